@@ -35,6 +35,16 @@ type c13Case struct {
 	CtxEnd bool // the message's context ends while the handler runs: the poison decision does not depend on it
 }
 
+// c13Topic: the poison topic is used as it was configured -- every second one has white space around it; a handler with a poisoned
+// metadata set ("poisoned") also Nacks the message itself before it fails (the poison queue deals with it all the same)
+func (cs c13Case) topic() string {
+	if len(cs.HRes)%2 == 0 {
+		return " poison-topic\t"
+	}
+	return "poison-topic"
+}
+func (cs c13Case) selfNack() bool { return cs.Meta == "poisoned" && !cs.Router }
+
 func c13Err(h string) error {
 	switch h {
 	case "plain", "plain+outs":
@@ -149,7 +159,7 @@ func c13Prepare(T *tr.Trace, cs c13Case) *tr.Run {
 	uid := T.NumRuns() + 1
 	r := T.NewRun(mode+"/"+cs.Filter, map[string]any{"case": map[string]any{
 		"plain": cs.Filter == "plain", "hok": herr == nil, "accept": accept, "pubok": cs.PubOK, "inRouter": cs.Router, "meta": c13Meta(cs.Meta), "errText": errText,
-		"ctxTopic": ct, "ctxHandler": ch, "ctxSub": csb, "houts": map[bool]int{true: 2, false: 0}[cs.HRes == "ok2" || cs.HRes == "plain+outs"], "topic": "poison-topic", "uuid": fmt.Sprintf("u%d", uid), "payload": "the payload",
+		"ctxTopic": ct, "ctxHandler": ch, "ctxSub": csb, "houts": map[bool]int{true: 2, false: 0}[cs.HRes == "ok2" || cs.HRes == "plain+outs"], "topic": cs.topic(), "uuid": fmt.Sprintf("u%d", uid), "payload": "the payload",
 	}})
 	r.Key = fmt.Sprintf("%+v", cs)
 	return r
@@ -174,10 +184,10 @@ func c13Run(r *tr.Run, cs c13Case) {
 	var mw message.HandlerMiddleware
 	var err error
 	if cs.Filter == "plain" {
-		mw, err = middleware.PoisonQueue(pp, "poison-topic")
+		mw, err = middleware.PoisonQueue(pp, cs.topic())
 	} else {
 		f := c13Filter(cs.Filter)
-		mw, err = middleware.PoisonQueueWithFilter(pp, "poison-topic", func(e error) bool {
+		mw, err = middleware.PoisonQueueWithFilter(pp, cs.topic(), func(e error) bool {
 			r.Emit("filter", "same", c13Same(e, herr))
 			return f(e)
 		})
@@ -191,6 +201,9 @@ func c13Run(r *tr.Run, cs c13Case) {
 	handler := func(msg *message.Message) ([]*message.Message, error) {
 		r.Emit("hcall")
 		endCtx()
+		if cs.selfNack() && ret != nil {
+			msg.Nack()
+		}
 		var outs []*message.Message
 		if cs.HRes == "ok2" || cs.HRes == "plain+outs" {
 			outs = []*message.Message{message.NewMessage("o1", nil), message.NewMessage("o2", nil)}
